@@ -57,10 +57,10 @@ def run(ctx):
     r = ctx.rng
 
     # ---- 1. end-to-end on a real ThreadPool under the cooperative scheduler: witness first, then controls
-    e2e = [('c09 2 1 ; S 1*3000', True), ('c09 2 0 ; S 1*3000', False), ('c09 2 1 ; S 0*10', False), ('c09 3 0 ; S 2*3000', False),
-           ('c09 8 0 ; S 3*3000', False), ('c09 9 0 ; S 5*3000', False)]
+    e2e = [('c09 2 1 ; S 1*300', True), ('c09 2 0 ; S 1*300', False), ('c09 2 1 ; S 0*10', False), ('c09 3 0 ; S 2*300', False),
+           ('c09 8 0 ; S 3*300', False), ('c09 9 0 ; S 5*300', False)]
     if not ctx.quick:
-        e2e += [('c09 %d %d ; S %d*3000' % (n, pre, d), None) for n in (2, 3, 8, 16) for pre in (0, 1) for d in (1, 2, 3, 7)]
+        e2e += [('c09 %d %d ; S %d*300' % (n, pre, d), None) for n in (2, 3, 8, 16) for pre in (0, 1) for d in (1, 2, 3, 7)]
     rc, out = dv.sh([exe_pool], inp='\n'.join(c for c, _ in e2e) + '\n', timeout=600)
     lines = [l for l in out.split('\n') if l.strip()]
     ctx.cov['evaluations'] += len(e2e)
@@ -90,7 +90,7 @@ def run(ctx):
     ctx.phase('end_to_end')
 
     # ---- 2. native supporting evidence (one-sided)
-    rc, out = dv.sh([exe_nat], inp='c09 1200 %d\n' % (4 if ctx.quick else 12), timeout=300)
+    rc, out = dv.sh([exe_nat], inp='c09 1200 %d\n' % (6 if ctx.quick else 16), timeout=300)
     ctx.cov['native_one_sided'] = out.strip()[:300]
     ctx.cov['evaluations'] += 1
     if ' reproduced 1 ' in out:
@@ -98,8 +98,8 @@ def run(ctx):
     ctx.phase('native')
 
     # ---- 3. lockstep on the real PoolWakeState / EpochWaiter
-    nraw = 90 if ctx.quick else 2500
-    nproto = 40 if ctx.quick else 1200
+    nraw = 60 if ctx.quick else 2500
+    nproto = 30 if ctx.quick else 1200
     cases = [wc.witness_c09()] + phase_cases()
     cases += [wc.gen_raw(r) for _ in range(nraw)]
     for fl in ('stop', 'stopclaim', 'mixed'):
